@@ -10,6 +10,7 @@ import (
 	"os"
 	"path"
 	"path/filepath"
+	"sort"
 	"strings"
 	"sync"
 	"syscall"
@@ -321,6 +322,8 @@ func (l *localFS) KeysPrefix(_ context.Context, token, prefix, delimiter string,
 		if err != nil {
 			return nil, "", err
 		}
+		// Walk visits "a/x" before "a-b/x": restore the lexicographic order of keys
+		sort.Strings(matches)
 		if delimiter != "" {
 			// dedupe truncated matches
 			deduped := make([]string, 0, len(matches))
